@@ -350,6 +350,10 @@ func runC02(c *core.Ctx) {
 					var lastErr string
 					for rep := 0; rep < reps; rep++ {
 						args := VerifyArgs{Layout: layoutMD, Keys: gen.KeyMap(owner), LinkDir: dir, Cwd: c.WorkDir}
+						if rep%4 >= 2 || reps == 1 && cn%4 >= 2 {
+							// a parameter dictionary that touches nothing must not influence the counting
+							args.Params = map[string]string{"UNUSED": "x", "ALSO_UNUSED": "y"}
+						}
 						if rep%2 == 1 || reps == 1 && cn%2 == 0 {
 							// the caller supplies the intermediate of a foreign chain as additional intermediate
 							args.Intermediates = [][]byte{[]byte(env.foreignInter.PEM)}
@@ -543,7 +547,7 @@ func init() {
 	core.Register(&core.Property{
 		ID:    "C02",
 		Level: "exploration",
-		Rule: "layout with steps t (earlier), s (under test), u (later); step s with threshold 1..3 and authorization by {2 listed keys, 1 certificate constraint + layout root/intermediate CA, both}; link-file populations for s = all multisets of size<=2 (quick) / <=3 (thorough, + 2000 random ones of size 4-8) over a catalogue of 22 link kinds (honest key A/B, honest certificate C / D via intermediate, tampered, unsigned, unauthorized key, key of an earlier / a later step, copy under another name, copy with forged key-id entry without / with the honest certificate, relabelled copy (forged id with the honest signature value and certificate), junk signatures before/after, expired / foreign-root / constraint-failing certificate, garbage, truncated JSON, link of another step renamed) x 2 wrappers; the earlier step t also admits certificate functionary C (its verdict must not leak into s); every population of >=2 files is verified 8 times (map order), half of the verifications with the intermediate of a foreign chain passed as caller-supplied intermediate; VerifyLinkSignatureThesholds is also called directly and its map inspected; finally a sequence of two layouts that define one key id with different key material. Oracle: expected number of distinct counting functionaries known by construction. " +
+		Rule: "layout with steps t (earlier), s (under test), u (later); step s with threshold 1..3 and authorization by {2 listed keys, 1 certificate constraint + layout root/intermediate CA, both}; link-file populations for s = all multisets of size<=2 (quick) / <=3 (thorough, + 2000 random ones of size 4-8) over a catalogue of 22 link kinds (honest key A/B, honest certificate C / D via intermediate, tampered, unsigned, unauthorized key, key of an earlier / a later step, copy under another name, copy with forged key-id entry without / with the honest certificate, relabelled copy (forged id with the honest signature value and certificate), junk signatures before/after, expired / foreign-root / constraint-failing certificate, garbage, truncated JSON, link of another step renamed) x 2 wrappers; the earlier step t also admits certificate functionary C (its verdict must not leak into s); every population of >=2 files is verified 8 times (map order), half of the verifications with the intermediate of a foreign chain passed as caller-supplied intermediate, half with a (non-matching) parameter dictionary; VerifyLinkSignatureThesholds is also called directly and its map inspected; finally a sequence of two layouts that define one key id with different key material. Oracle: expected number of distinct counting functionaries known by construction. " +
 			"non-trivial = at least one file for the step; distinct = (kind multiset, threshold, authorization, wrapper)",
 		Assumptions: []string{"a junk signature entry that carries the honest signer's own key id before the honest entry is not judged", "a link that an authorized functionary signed for ANOTHER step, renamed to this step's file name, is not judged (observed: it is counted; the statement only speaks about who signed)", "all links of a case report identical artifacts (agreement is C05's business)"},
 		Workers:     func(string) int { return 16 },
